@@ -156,8 +156,8 @@ func asciiOnly(s string) bool {
 }
 
 //verif:harness C06 quick la=0..3 lb=0..3
-//verif:harness C06 thorough la=4..5 lb=0..5
-//verif:harness C06 thorough la=0..3 lb=4..5
+//verif:harness C06 thorough la=4..4 lb=0..4
+//verif:harness C06 thorough la=0..3 lb=4..4
 func H_C06_preRelease(la int, lb int) {
 	a, b := vStr("a", la), vStr("b", lb)
 	for i := 0; i < la; i++ {
